@@ -131,6 +131,11 @@ EvResult(ev) ==
       [] ev = "e_tup2" -> [k |-> "tuple", v |-> <<"v1", "v2">>]
       [] ev = "e_bin"  -> [k |-> "one",   v |-> <<"b1">>]
       [] ev = "e_tbin" -> [k |-> "tuple", v |-> <<"v1", "b1">>]
+      [] ev = "e_f"    -> [k |-> "one",   v |-> <<"f1">>]     \* falsy but meaningful results
+      [] ev = "e_es"   -> [k |-> "one",   v |-> <<"es">>]
+      [] ev = "e_el"   -> [k |-> "one",   v |-> <<"el">>]
+      [] ev = "e_ed"   -> [k |-> "one",   v |-> <<"ed">>]
+      [] ev = "e_h"    -> [k |-> "one",   v |-> <<"h1">>]
       [] ev = "e_raise"-> [k |-> "raise", v |-> <<>>]
       [] OTHER         -> [k |-> "unh",   v |-> <<>>]
 Pack(r) == IF r.k \in {"none", "unh"} THEN <<>> ELSE r.v
